@@ -16,6 +16,13 @@ func (fx *Fx) stdlibCall(st *State, fn *types.Func, recvExpr ast.Expr, call *ast
 		if strings.HasPrefix(fn.FullName(), "(*sync.") && fx.mutexCall(st, fn.FullName(), recvExpr) {
 			return nil
 		}
+		if strings.HasPrefix(fn.FullName(), "(*log/slog.Logger).") {
+			fx.note("log/slog calls are skipped (no effect on tracked state)")
+			return nil
+		}
+		if fn.FullName() == "(*net/http.Request).Context" {
+			return []Val{fx.freshVal(st, "ctx", fn.Type().(*types.Signature).Results().At(0).Type())}
+		}
 		recv := fx.eval(st, recvExpr, spec)
 		for _, a := range call.Args {
 			args = append(args, fx.eval(st, a, spec))
@@ -96,6 +103,9 @@ func (fx *Fx) stdlibCall(st *State, fn *types.Func, recvExpr ast.Expr, call *ast
 		}
 		fx.store(st, l, fx.freshVal(st, "json_string", l.T))
 		return []Val{{T: sig.Results().At(0).Type(), S: SRef, X: e}}
+	case "net/http.Error":
+		// recorded in the ghost call trace as a call on the response writer
+		return fx.abstractCall(st, args[0].X, "httpError", args[1:], nil, call)
 	case "time.Now":
 		r := fx.d.freshConst("now", SInt)
 		st.assume(not(app("=", r, "0")))
